@@ -20,7 +20,7 @@ fn held(b: &[u64; 4], k: usize, p: u64) -> bool {
 }
 
 /// receiver after EOF (size n symbolic), k held segments inside [0,n], metadata present or not
-fn after_eof(k: usize, ch: &Chans, seg: u16) -> (RecvTransaction<ModelFs>, [u64; 4], u64, bool) {
+fn after_eof(k: usize, ch: &Chans, seg: u16, md: Option<bool>) -> (RecvTransaction<ModelFs>, [u64; 4], u64, bool) {
     verif::set_now(Duration::from_secs(NOW));
     let mut cfg = config(TransmissionMode::Acknowledged);
     cfg.file_size_segment = seg;
@@ -37,7 +37,10 @@ fn after_eof(k: usize, ch: &Chans, seg: u16) -> (RecvTransaction<ModelFs>, [u64;
     p.saved_segments = s;
     p.received_file_size = total;
     p.nak_received_file_size = total;
-    let has_md: bool = kani::any();
+    let has_md: bool = match md {
+        Some(x) => x,
+        None => kani::any(),
+    };
     if has_md {
         p.metadata = Some(metadata(true, n, false, ChecksumType::Modular, vec![]));
     }
@@ -86,24 +89,29 @@ fn check_nak_pdu(pdu: &PDU, n: u64, has_md: bool, max_reqs: usize, seg: u16, p: 
 
 /// the queued requests are well-formed and cover exactly the missing bytes (probe-point formulation)
 fn check_queue(t: &RecvTransaction<ModelFs>, b: &[u64; 4], k: usize, n: u64, has_md: bool, p: u64) {
-    let q = t.verif_naks();
+    // read the queue through its (contiguous) slice at CONCRETE indices: indexing a VecDeque at a symbolic
+    // position makes CBMC run out of memory
+    let (q, tail) = t.verif_naks().as_slices();
+    assert!(tail.is_empty());
     assert!(q.len() <= k + 2, "at most one request per gap plus the metadata marker");
     let mut covers = false;
     let mut zero = false;
     let mut prev_end = 0u64;
     let mut i = 0;
-    while i < q.len() {
-        let r = &q[i];
-        if r.start_offset == 0 && r.end_offset == 0 {
-            assert!(!has_md && i == 0, "0-0 marker only while metadata is missing, and first");
-            zero = true;
-        } else {
-            assert!(r.start_offset < r.end_offset, "non-empty range");
-            assert!(r.end_offset <= n, "request inside the file");
-            assert!(r.start_offset >= prev_end, "ascending, non-overlapping");
-            prev_end = r.end_offset;
-            if r.start_offset <= p && p < r.end_offset {
-                covers = true;
+    while i < 4 {
+        if i < q.len() {
+            let r = &q[i];
+            if r.start_offset == 0 && r.end_offset == 0 {
+                assert!(!has_md && i == 0, "0-0 marker only while metadata is missing, and first");
+                zero = true;
+            } else {
+                assert!(r.start_offset < r.end_offset, "non-empty range");
+                assert!(r.end_offset <= n, "request inside the file");
+                assert!(r.start_offset >= prev_end, "ascending, non-overlapping");
+                prev_end = r.end_offset;
+                if r.start_offset <= p && p < r.end_offset {
+                    covers = true;
+                }
             }
         }
         i += 1;
@@ -112,38 +120,48 @@ fn check_queue(t: &RecvTransaction<ModelFs>, b: &[u64; 4], k: usize, n: u64, has
     assert!(zero == !has_md, "metadata requested exactly when missing");
 }
 
-fn all_naks_after_eof(k: usize) {
+fn all_naks_after_eof(k: usize, md: bool) {
     let ch = chans();
-    let (mut t, b, n, has_md) = after_eof(k, &ch, 64);
+    let (mut t, b, n, has_md) = after_eof(k, &ch, 64, Some(md));
     let p: u64 = kani::any();
     kani::assume(p < n);
     // NAK timer expiry: all gaps are queued again
     verif::set_now(Duration::from_secs(NOW + 5));
     t.handle_timeout().unwrap();
     check_queue(&t, &b, k, n, has_md, p);
-    let complete = has_md && (n == 0 || (k == 1 && b[0] == 0 && b[1] == n));
-    assert!(verif::recv_has_pdu_to_send(&t) == !complete, "a NAK is due exactly when something is missing");
     kani::cover!(k >= 1 && b[0] > 0, "first segment missing");
-    kani::cover!(!has_md, "metadata missing");
-    kani::cover!(complete, "nothing missing");
     forget(t);
     forget(ch);
 }
-//# funcs=RecvTransaction::handle_timeout,get_all_naks,has_pdu_to_send,has_naks,Segments::gaps,Segments::is_complete; bound=after EOF (size < 2^32 symbolic), 0 or 1 held segment, metadata present/missing, NAK-timer expiry; stubs=S1,S2,S3
-th!(c08_q_all_naks_timer_k01, 8, {
-    if kani::any() {
-        all_naks_after_eof(0)
-    } else {
-        all_naks_after_eof(1)
-    }
+// With the metadata MISSING the first queue entry (the 0-0 marker) is pushed unconditionally, so the queue is
+// allocated on a concrete path; with the metadata present every push is conditional and the VecDeque growth under a
+// symbolic guard runs CBMC out of memory (> 38 GB) - that instance lives in the thorough tier.
+//# funcs=RecvTransaction::handle_timeout,get_all_naks,Segments::gaps; bound=after EOF (size < 2^32 symbolic), metadata missing, nothing held, NAK-timer expiry; stubs=S1,S2,S3
+th!(c08_q_all_naks_timer_k0, 8, { all_naks_after_eof(0, false) });
+//# funcs=RecvTransaction::handle_timeout,get_all_naks,Segments::gaps; bound=after EOF, metadata missing, 1 held segment (any sub-range of the file); stubs=S1,S2,S3
+th!(c08_q_all_naks_timer_k1, 8, { all_naks_after_eof(1, false) });
+//# funcs=RecvTransaction::handle_timeout,get_all_naks,Segments::gaps; bound=after EOF, metadata PRESENT, 1 held segment (may be inconclusive: memory); stubs=S1,S2,S3
+th!(c08_t_all_naks_timer_k1_md, 8, { all_naks_after_eof(1, true) });
+//# funcs=RecvTransaction::handle_timeout,get_all_naks,Segments::gaps; bound=after EOF, metadata missing, 2 held segments; stubs=S1,S2,S3
+th!(c08_t_all_naks_timer_k2, 9, { all_naks_after_eof(2, false) });
+
+//# funcs=RecvTransaction::has_naks,has_pdu_to_send,Segments::is_complete; bound=after EOF (size symbolic), 0 or 1 held segment, metadata present/missing: "something is missing" is decided exactly; stubs=S1,S2,S3
+th!(c08_q_has_naks_exact, 8, {
+    let ch = chans();
+    let k: usize = if kani::any() { 1 } else { 0 };
+    let (t, b, n, has_md) = if k == 1 { after_eof(1, &ch, 64, None) } else { after_eof(0, &ch, 64, None) };
+    let complete = has_md && (n == 0 || (k == 1 && b[0] == 0 && b[1] == n));
+    assert!(t.verif_has_naks() == !complete, "missing data or metadata is noticed exactly (incl. a missing first segment, an empty file)");
+    kani::cover!(complete, "complete");
+    kani::cover!(k == 1 && b[0] > 0 && b[1] == n && has_md, "only the first segment missing");
+    forget(t);
+    forget(ch);
 });
-//# funcs=RecvTransaction::handle_timeout,get_all_naks,Segments::gaps; bound=after EOF, 2 held segments; stubs=S1,S2,S3
-th!(c08_t_all_naks_timer_k2, 9, { all_naks_after_eof(2) });
 
 //# funcs=RecvTransaction::process_pdu(Prompt),send_pdu,answer_prompt,get_all_naks,send_naks; bound=after EOF, 1 held segment, NAK prompt answered at the next send opportunity; stubs=S1,S2,S3
-th!(c08_q_all_naks_prompt_k1, 8, {
+th!(c08_t_all_naks_prompt_k1, 8, {
     let ch = chans();
-    let (mut t, b, n, has_md) = after_eof(1, &ch, 64);
+    let (mut t, b, n, has_md) = after_eof(1, &ch, 64, Some(false));
     let p: u64 = kani::any();
     kani::assume(p < n);
     t.process_pdu(directive(
@@ -170,41 +188,47 @@ th!(c08_q_all_naks_prompt_k1, 8, {
     forget(ch);
 });
 
-//# funcs=RecvTransaction::process_pdu(EoF),check_file_size,check_finished,has_naks,get_all_naks,prepare_ack_eof; bound=EOF arrives with 0 or 1 held segment of an incomplete file, deferred procedure delay 0: ACK(EOF) armed and exactly the missing bytes queued; stubs=S1,S2,S3
-th!(c08_q_eof_then_nak, 8, {
+//# funcs=RecvTransaction::process_pdu(EoF),check_file_size,check_finished,has_naks,get_all_naks,prepare_ack_eof; bound=EOF arrives (size symbolic) with 0 or 1 held segment and the metadata missing, deferred procedure delay 0: ACK(EOF) armed, 0-0 marker + exactly the missing bytes queued; stubs=S1,S2,S3
+fn eof_then_nak(k: usize, queued: bool) {
     let ch = chans();
     verif::set_now(Duration::from_secs(NOW));
     let mut p = recv_parts(config(TransmissionMode::Acknowledged), NakProcedure::Deferred(Duration::ZERO), &ch);
     let n: u64 = kani::any();
     kani::assume(n < SZ && n > 0);
-    let k: usize = if kani::any() { 1 } else { 0 };
     let (s, b) = any_segments(k, n);
     p.saved_segments = s;
     let heldb = if k == 1 { b[1] - b[0] } else { 0 };
     p.received_file_size = heldb;
     p.nak_received_file_size = heldb;
-    p.metadata = Some(metadata(true, n, false, ChecksumType::Modular, vec![]));
+    // metadata still missing: the 0-0 marker is queued first (concrete allocation path, see above)
     p.timer.inactivity = counter(10, 2, NOW, 0, false, false);
+    if queued {
+        // a request from before the EOF is still waiting to be sent (immediate procedure, or the rest of a split list)
+        p.naks.push_back(SegmentRequestForm { start_offset: 0, end_offset: 1 });
+    }
     let mut t = RecvTransaction::verif_from_parts(p);
-    let complete = k == 1 && b[0] == 0 && b[1] == n;
-    kani::assume(!complete);
     let probe: u64 = kani::any();
     kani::assume(probe < n);
     let eof = EndOfFile { condition: Condition::NoError, checksum: kani::any(), file_size: n, fault_location: None };
     t.process_pdu(directive(TransmissionMode::Acknowledged, Direction::ToReceiver, Operations::EoF(eof))).unwrap();
     assert!(t.verif_recv_state() == VRecvState::ReceiveData, "incomplete file is not finalised");
     assert!(matches!(t.verif_ack(), Some(a) if a.directive == PDUDirective::EoF), "ACK(EOF) armed");
-    check_queue(&t, &b, k, n, true, probe);
-    assert!(!t.verif_naks().is_empty(), "missing bytes: a NAK is due right after EOF (deferred, no delay)");
-    kani::cover!(k == 1 && b[0] > 0 && b[1] == n, "only the first segment is missing");
+    check_queue(&t, &b, k, n, false, probe);
+    assert!(verif::recv_has_pdu_to_send(&t), "something is missing: ACK(EOF) and a NAK are due right after EOF (deferred, no delay)");
+    kani::cover!(k == 0 || b[0] > 0, "first byte missing");
     forget(t);
     forget(ch);
-});
+}
+th!(c08_q_eof_then_nak_k0, 8, { eof_then_nak(0, false) });
+//# funcs=RecvTransaction::process_pdu(EoF),get_all_naks,Segments::gaps; bound=as above with 1 held segment (any sub-range); stubs=S1,S2,S3
+th!(c08_q_eof_then_nak_k1, 8, { eof_then_nak(1, false) });
+//# funcs=RecvTransaction::process_pdu(EoF),get_all_naks; bound=as above (nothing held) with one request already queued when the EOF arrives: after EOF the queue is exactly the missing bytes + metadata marker; stubs=S1,S2,S3
+th!(c08_q_eof_then_nak_prequeued, 8, { eof_then_nak(0, true) });
 
 //# funcs=RecvTransaction::send_pdu,send_naks,get_header; bound=queue of 2 symbolic requests (+ 0-0 marker present or not, per instance), file size < 2^32: the NAK PDU is well-formed, scope = first start..last end, requests kept in order; stubs=S1,S2,S3
 th!(c08_q_send_naks_wellformed, 8, {
     let ch = chans();
-    let (t0, _b, n, _md) = after_eof(0, &ch, 64);
+    let (t0, _b, n, _md) = after_eof(0, &ch, 64, Some(true));
     let mut p = t0.verif_into_parts();
     let (a1, e1, a2, e2): (u64, u64, u64, u64) = (kani::any(), kani::any(), kani::any(), kani::any());
     kani::assume(a1 < e1 && e1 <= a2 && a2 < e2 && e2 <= n);
@@ -232,7 +256,7 @@ th!(c08_q_send_naks_wellformed, 8, {
     forget(ch);
 });
 
-//# funcs=RecvTransaction::process_pdu(FileData),has_pdu_to_send,handle_timeout; bound=deferred procedure, EOF not received, 1 held segment, new data anywhere (creates gaps): no unsolicited NAK before EOF; stubs=S1,S2,S3,S5
+//# funcs=RecvTransaction::process_pdu(FileData),has_pdu_to_send,handle_timeout; bound=deferred procedure (delay 0..3 s), EOF not received, nothing held, 2 bytes arrive at any offset in (0, 2^30) (a gap at the head): no unsolicited NAK before EOF; stubs=S1,S2,S3,S5
 th!(c08_q_deferred_no_nak_before_eof, 8, {
     let ch = chans();
     link_libc();
@@ -240,17 +264,15 @@ th!(c08_q_deferred_no_nak_before_eof, 8, {
     let delay: u64 = kani::any();
     kani::assume(delay <= 3);
     let mut p = recv_parts(config(TransmissionMode::Acknowledged), NakProcedure::Deferred(Duration::from_secs(delay)), &ch);
-    let (s, b) = any_segments(1, 1 << 30);
-    p.saved_segments = s;
-    p.received_file_size = b[1] - b[0];
-    p.nak_received_file_size = p.received_file_size;
+    // nothing held yet: the first data to arrive does not start at offset 0 (a gap at the head of the file)
+    let b = [0u64, 0, 0, 0];
     if kani::any() {
         p.metadata = Some(metadata(true, 0, false, ChecksumType::Modular, vec![]));
     }
     p.timer.inactivity = counter(10, 2, NOW, 0, false, false);
     let mut t = RecvTransaction::verif_from_parts(p);
     let off: u64 = kani::any();
-    kani::assume(off < (1 << 30));
+    kani::assume(off > 0 && off < (1 << 30));
     t.process_pdu(filedata(TransmissionMode::Acknowledged, off, vec![kani::any(), kani::any()])).unwrap();
     assert!(!verif::recv_has_pdu_to_send(&t) && t.verif_naks().is_empty(), "no NAK before EOF under the deferred procedure");
     verif::set_now(Duration::from_secs(NOW + 4));
@@ -261,18 +283,15 @@ th!(c08_q_deferred_no_nak_before_eof, 8, {
     forget(ch);
 });
 
-//# funcs=RecvTransaction::process_pdu(FileData) immediate procedure,handle_timeout (delayed NAK),Segments::gaps; bound=immediate procedure, delay 0 or 2 s, 1 held segment, new data beyond its end: the new gap is requested at once / after the delay if it persists; stubs=S1,S2,S3,S5
-th!(c08_q_immediate_new_gap, 8, {
+//# funcs=RecvTransaction::process_pdu(FileData) immediate procedure,handle_timeout (delayed NAK),Segments::gaps; bound=immediate procedure, delay 0 or 2 s, nothing held, 1 byte arrives at any offset in (0, 2^30): the new gap is requested at once / after the delay if it persists; stubs=S1,S2,S3,S5
+fn immediate_new_gap(delayed: bool) {
     let ch = chans();
     link_libc();
     verif::set_now(Duration::from_secs(NOW));
-    let delayed: bool = kani::any();
     let proc_ = NakProcedure::Immediate(Duration::from_secs(if delayed { 2 } else { 0 }));
     let mut p = recv_parts(config(TransmissionMode::Acknowledged), proc_, &ch);
-    let (s, b) = any_segments(1, 1 << 30);
-    p.saved_segments = s;
-    p.received_file_size = b[1] - b[0];
-    p.nak_received_file_size = p.received_file_size;
+    // nothing held yet (previous end = 0): data at offset > 0 opens the gap (0, offset)
+    let b = [0u64, 0, 0, 0];
     p.metadata = Some(metadata(true, 0, false, ChecksumType::Modular, vec![]));
     p.timer.inactivity = counter(10, 2, NOW, 0, false, false);
     p.timer.nak = counter(5, 2, NOW, 0, false, false);
@@ -294,16 +313,18 @@ th!(c08_q_immediate_new_gap, 8, {
         let r = &t.verif_naks()[0];
         assert!(r.start_offset == b[1] && r.end_offset == off);
     }
-    kani::cover!(delayed, "delayed");
-    kani::cover!(!delayed, "immediate");
+    kani::cover!(true, "end");
     forget(t);
     forget(ch);
-});
+}
+th!(c08_q_immediate_new_gap, 8, { immediate_new_gap(false) });
+//# funcs=RecvTransaction::process_pdu(FileData) immediate procedure with delay,handle_timeout (delayed NAK),Segments::gaps; bound=immediate procedure, delay 2 s: the gap is requested by the first timeout at t+2 s; stubs=S1,S2,S3,S5
+th!(c08_q_immediate_delayed_gap, 8, { immediate_new_gap(true) });
 
 //# funcs=RecvTransaction::send_naks,NegativeAcknowledgmentPDU::max_nak_num; bound=queue of 4 requests incl. 0-0, segment size 24 (capacity 2 requests per PDU): split over PDUs, each well-formed; stubs=S1,S2,S3
 th!(c08_q_split_over_pdus, 8, {
     let ch = chans();
-    let (mut t0, _b, _n, _md) = after_eof(0, &ch, 24);
+    let (mut t0, _b, _n, _md) = after_eof(0, &ch, 24, Some(true));
     let mut p = t0.verif_into_parts();
     p.metadata = None;
     p.file_size = Some(100);
